@@ -205,11 +205,20 @@ func (e *Exec) Judge() *Judgement {
 				awaited = configapi.TransactionStatus_APPLIED
 			}
 			var reachedAt int64
-			for _, ev := range events {
-				if ev.Tx != nil && ev.OK && uint64(ev.Tx.Index) == c.TxIndex && strings.HasPrefix(ev.Kind, "tx.") &&
-					(ev.Tx.Status.State == awaited || (!c.Sync && ev.Tx.Status.State == configapi.TransactionStatus_APPLIED)) {
-					reachedAt = ev.StartSeq
-					break
+			// the decorator logs a write after the store call returned: the handler may have been woken by the
+			// store event and have returned before that; give the log entry up to 2 s to appear
+			for try := 0; reachedAt == 0 && try < 200; try++ {
+				evs := events
+				if try > 0 {
+					time.Sleep(10 * time.Millisecond)
+					evs = e.W.Events()
+				}
+				for _, ev := range evs {
+					if ev.Tx != nil && ev.OK && uint64(ev.Tx.Index) == c.TxIndex && strings.HasPrefix(ev.Kind, "tx.") &&
+						(ev.Tx.Status.State == awaited || (!c.Sync && ev.Tx.Status.State == configapi.TransactionStatus_APPLIED)) {
+						reachedAt = ev.StartSeq
+						break
+					}
 				}
 			}
 			e.C.Count("ok_answers_ordered_against_stage", 1)
